@@ -149,7 +149,7 @@ func genC09(r *simrt.Rand, tier string) any {
 	if r.Chance(20) {
 		p.Job = 1
 	}
-	p.MaxPts = 10
+	p.MaxPts = 8
 	if tier == "thorough" {
 		p.MaxPts = 40
 	}
@@ -1021,7 +1021,7 @@ func runC09(planAny any, cfg simrt.Config) *simkit.Outcome {
 		for _, v := range ep.verdicts {
 			label := fp.Label
 			if fp.Kind == "step" {
-				label = ep.atFault + ".killed-between-storage-operations"
+				label = ep.atFault // same circumstance as a kill at the adjacent storage operation
 			}
 			if ep.partInputs > 0 && strings.HasPrefix(v.rule, "C09.rows-duplicated") {
 				// diagnosis, not oracle: the duplicate rows came from a complete
